@@ -331,7 +331,12 @@ void FileHDF5::close() {
         }
     }
 
-    H5Object::close();
+    // the last reference closes the file; what it still has to write (a changed
+    // end of file after space was freed) can fail as well
+    if (H5Iis_valid(hid) && H5Idec_ref(hid) < 0) {
+        complete = false;
+    }
+    invalidate();
 
     if (!complete) {
         throw H5Exception("FileHDF5::close(): the file could not be written completely");
